@@ -203,7 +203,7 @@ func (mw *msgWriter) writeMsg(msg *Msg) {
 			msg.multiPartBoundary[mimePGP] = mw.startMP(`encrypted; protocol="application/pgp-encrypted"`,
 				pgpBoundary)
 		case PGPSignature:
-			msg.multiPartBoundary[mimePGP] = mw.startMP(`signed; protocol="application/pgp-signature";`,
+			msg.multiPartBoundary[mimePGP] = mw.startMP(`signed; protocol="application/pgp-signature"`,
 				pgpBoundary)
 		default:
 		}
